@@ -861,10 +861,13 @@ def uci_scenarios(work, vh, rep, props, seed, tier, want_real=True):
         for i in range(4 if quick else 12):
             jobs.append(("real%d" % i, ["-mode", "real", "-seed", seed * 100 + 50 + i, "-n", 8 if quick else 80, "-delay", 20]))
 
+    crash_judged = set()
+
     def one(job):
         name, args = job
         trace = work.path(name + ".ndjson")
-        p = vlib.run_harness(work, vh, ["ucisched"] + args + ["-out", trace], check=False, timeout=3000)
+        evlog = work.path(name + ".evlog")
+        p = vlib.run_harness(work, vh, ["ucisched"] + args + ["-out", trace, "-evlog", evlog], check=False, timeout=3000)
         crash = None
         if p.returncode != 0:
             txt = (p.stdout + p.stderr)
@@ -877,6 +880,16 @@ def uci_scenarios(work, vh, rep, props, seed, tier, want_real=True):
         if crash and lines and '"op":"scenario"' in lines[-1]:
             last = lines[-1]
             lines = lines[:-1]
+            # the events of the crashed scenario were logged as they were recorded: judge them, with a final
+            # crash event (TraceUci: c16.crash; c04.go-unanswered-driver-crashed if a go was awaiting its answer)
+            try:
+                ev = [json.loads(x) for x in open(evlog).read().splitlines() if x.strip()]
+                if ev and ev[0].get("op") == "scenario":
+                    events = ev[1:] + [{"seq": len(ev), "g": 0, "role": "harness", "name": "harness.crash", "args": []}]
+                    lines += [json.dumps(ev[0], separators=(",", ":")), json.dumps({"op": "events", "events": events, "infeasible": [], "crashed": True}, separators=(",", ":"))]
+                    crash_judged.add(name)
+            except Exception:
+                pass
             open(trace, "w").write("\n".join(lines) + ("\n" if lines else ""))
         else:
             last = None
@@ -886,13 +899,15 @@ def uci_scenarios(work, vh, rep, props, seed, tier, want_real=True):
         return name, r, crash, last
     results = vlib.run_many(one, jobs, workers=min(vlib.NCPU, 12))
     tr = []
+    unsettled_at = []
     for name, r, crash, last in results:
         if crash:
             d = os.path.join(vlib.OUTROOT, "replay", rep.prop)
             os.makedirs(d, exist_ok=True)
             path = os.path.join(d, "crash-%s-seed%d.txt" % (name, seed))
             open(path, "w").write("scenario: %s\n\n%s" % (last, crash))
-            if "C16" in props:
+            print("NOTE scenario process died (Go panic), trace in %s" % path)
+            if "C16" in props and name not in crash_judged:
                 rep.fail_events["c16.crash"] = rep.fail_events.get("c16.crash", 0) + 1
                 rep.violations.append(("c16.crash", path))
         if r is not None:
@@ -900,14 +915,45 @@ def uci_scenarios(work, vh, rep, props, seed, tier, want_real=True):
             n = r.nlines // 2
             rep.traces += n
             for note in r.notes:
-                rep.counters({note: 1})
+                if note.startswith("unsettled|"):
+                    rep.counters({"unsettled": 1})
+                    unsettled_at.append((r.trace, int(note.split("|")[1])))
+                else:
+                    rep.counters({note: 1})
             rep.counters({"scenarios:" + name.rstrip("0123456789"): n})
     if tr:
         rep.sample(vlib.read_line(tr[0].trace, 1)[:800])
         rep.sample(vlib.read_line(tr[0].trace, 2)[:1500])
     vlib.absorb_trace_results(rep, tr)
+    # scenarios that did not come to rest within the limit: a loaded machine or a driver that is stuck.
+    # They are run again, one after the other with nothing else running, with a long limit; what does not come
+    # to rest then is reported (c16.does-not-come-to-rest / c04.go-unanswered-driver-stuck by TraceUci)
     unsettled = rep.cov.get("unsettled", 0)
-    if unsettled * 7 > max(1, rep.traces):
+    if unsettled_at:
+        again, seen = [], set()
+        for trace, lineno in unsettled_at:
+            rec = json.loads(vlib.read_line(trace, lineno - 1))
+            if rec.get("op") != "scenario" or rec["name"] in seen:
+                continue
+            seen.add(rec["name"])
+            again.append({k: rec[k] for k in ("name", "steps", "stub", "engine", "hash", "noise", "depth", "book", "seed", "delay") if k in rec})
+            if len(again) >= 8:
+                break
+        path = work.path("again.json")
+        json.dump(again, open(path, "w"))
+        name, r, crash, last = one(("again", ["-mode", "script", "-scripts", path, "-final", "-settle", 20000]))
+        rep.extra["scenarios_run_again_alone"] = len(again)
+        if crash:
+            d = os.path.join(vlib.OUTROOT, "replay", rep.prop)
+            os.makedirs(d, exist_ok=True)
+            cpath = os.path.join(d, "crash-%s-seed%d.txt" % (name, seed))
+            open(cpath, "w").write("scenario: %s\n\n%s" % (last, crash))
+            if "C16" in props:
+                rep.fail_events["c16.crash"] = rep.fail_events.get("c16.crash", 0) + 1
+                rep.violations.append(("c16.crash", cpath))
+        if r is not None:
+            vlib.absorb_trace_results(rep, [r])
+    if unsettled * 3 > max(1, rep.traces):
         raise Inconclusive("UCI scenarios: %d of %d scenarios did not come to rest in time (machine too loaded?)" % (unsettled, rep.traces))
     answered = sum(v for k, v in rep.cov.items() if k.startswith("scenario|") and not k.endswith("best=0"))
     if answered < 5:
